@@ -12,9 +12,11 @@ REPO ?= /repo
 CXXFLAGS := -std=c++17 -O1 -g -fno-omit-frame-pointer $(SAN) -Wall -Wextra -Wno-unused-parameter \
    -I$(REPO)/include -I$(B)/include -I$(B) -Isrc
 WRAPS := socket bind listen accept connect getsockname getpeername setsockopt getsockopt ioctl close send sendmsg recv recvmsg \
-   epoll_create1 epoll_ctl epoll_wait select timerfd_create timerfd_settime read coap_malloc_type coap_realloc_type coap_free_type exit
+   epoll_create1 epoll_ctl epoll_wait select timerfd_create timerfd_settime read coap_malloc_type coap_realloc_type coap_free_type exit coap_pdu_parse
 WRAPFLAGS := $(foreach s,$(WRAPS),-Wl,--wrap=$(s))
-SRCS := $(wildcard src/*.cpp)
+# reference models written in parallel are only compiled once marked ready (src/<name>.ready)
+WIP := $(foreach n,r9 r10 r11,$(if $(wildcard src/$(n).ready),,src/$(n).cpp))
+SRCS := $(filter-out $(WIP),$(wildcard src/*.cpp))
 OBJS := $(patsubst src/%.cpp,$(OBJ)/%.o,$(SRCS))
 BIN := build/simcheck$(if $(filter sim,$(FLAVOUR)),,-$(FLAVOUR))
 
